@@ -7,7 +7,8 @@ CATS = {'roundtrip', 'unknown', 'save', 'aliasing'}   # aliasing: a later fetch 
 def run(rep, tier, seed):
     rep.rule = ('behaviours = complete paths of the TLC state graph of spec/Store.tla: histories of saves (other recordings '
                 'before and after) interleaved with fetch by id, fetch of the metadata alone, and fetch of ids that were '
-                'never saved (fresh, a strict prefix of a saved id, a saved id with a suffix, another category); applied to '
+                'never saved (fresh, a strict prefix of a saved id, a saved id with a suffix, another category), and copies of a '
+                'stored recording saved with added metadata into a sibling cassette (this one is unchanged); applied to '
                 'the in-memory, file-based and S3 cassettes (key prefix "", "p", "p/q"); recordings are concretised with '
                 'adversarial key texts (quotes, unicode, separators, JSON metacharacters, texts that look like playback\'s '
                 'own keys) and values / metadata from the self-validated faithful pool including shared sub-objects; '
@@ -16,7 +17,7 @@ def run(rep, tier, seed):
                 'event sequence (values vary with the seed)')
     rep.assumptions = ['value fidelity is sampled (encode/decode dimension); the protocol is exhaustive within the bounds',
                        'values in the serializer\'s faithful domain: every pool value round-trips alone and nested one level']
-    chk = StoreCheck(rep, tier, seed, CATS, ['get', 'getmeta', 'unknown', 'mutate'])
+    chk = StoreCheck(rep, tier, seed, CATS, ['get', 'getmeta', 'unknown', 'mutate', 'promote'])
     try:
         if tier == 'quick':
             ex = chk.run_config('hist', consts(Cats=['A', 'AB'], Metas=METAS_SMALL[:2], Ops=['get', 'getmeta', 'unknown', 'mutate'],
@@ -27,7 +28,13 @@ def run(rep, tier, seed):
             # a category that contains the id separator itself
             chk.run_config('slashcat', consts(Cats=['A/B', 'A'], Metas=METAS_SMALL[:1], Ops=['get', 'getmeta', 'unknown'],
                                               MaxSaves=3, MaxQueries=2), cap=5000, rich=True)
+            # a stored recording is copied, with added metadata, into a sibling cassette (other prefix of the same bucket,
+            # other directory, other in-memory cassette): what this cassette hands out for the id does not change
+            chk.run_config('promote', consts(Cats=['A'], Metas=METAS_SMALL[:2], Ops=['get', 'getmeta', 'promote'],
+                                             MaxSaves=2, MaxQueries=2), cap=8000, rich=True)
         else:
+            chk.run_config('promote', consts(Cats=['A', 'AB'], Metas=METAS_SMALL[:3], Ops=['get', 'getmeta', 'promote', 'mutate'],
+                                             MaxSaves=2, MaxQueries=3), cap=100000, rich=True)
             ex = chk.run_config('hist', consts(Cats=['A', 'AB', 'A_B'], Metas=METAS_SMALL[:3], Ops=['get', 'getmeta', 'unknown', 'mutate'],
                                                MaxSaves=2, MaxQueries=2), cap=300000, rich=True, n_seeds=3)
             chk.run_config('hist4', consts(Cats=['A', 'AB'], Metas=METAS_SMALL[2:3], Ops=['get', 'getmeta', 'unknown'],
